@@ -931,7 +931,18 @@ def save_dispatch(check, prog):
         return [c for c in it.calls if c['name'] == name]
 
     def conds(c):
-        return [(t, p) for t, p in c['cond']]
+        # conjunctions that hold are their conjuncts; "the name was not a TIFF
+        # name" (the fall-through of the early return, present as a path
+        # condition only when that test is a single expression) is dropped
+        out = []
+        for t, p in c['cond']:
+            if p and t[0] == 'bool' and t[1] == 'and':
+                out += [(x, True) for x in t[2]]
+            elif not p and any(x == isstr for x in subterms(t)):
+                continue
+            else:
+                out.append((t, p))
+        return out
     # TIFF
     si = calls(IO + 'save_image')
     ok = len(si) == 1 and tuple(si[0]['args']) == (outf, obj)
@@ -942,7 +953,7 @@ def save_dispatch(check, prog):
             any(x[0] == 'call' and x[1] == 'os.path.splitext' and x[2] == (outf,)
                 for x in subterms(cs[1][0][2]))
         rets = [o for o in res.outcomes if o.kind == 'return' and
-                [(t, p) for t, p in o.cond] == cs]
+                conds({'cond': o.cond}) == cs]
         ok = ok and len(rets) == 1
     check.require(ok, 'U2-save-dispatch', 'save [image file name]',
                   'a name with a TIFF extension -> save_image(outf, obj), nothing else',
